@@ -55,7 +55,8 @@ def case_strategy(draw):
     else:
         t = np.zeros(3)
     base.update({"size": size, "rkind": rk, "R": np.asarray(R, float).tolist(), "t": t.tolist(),
-                 "how": draw(st.sampled_from(["fresh", "copy"])),
+                 "how": draw(st.sampled_from(["fresh", "copy", "inplace"])),
+                 "order": draw(st.sampled_from(["ref-first", "moved-first"])),
                  "seed1": draw(gen.SEEDS), "seed2": draw(gen.SEEDS)})
     return base
 
@@ -77,20 +78,30 @@ def check(case):
     np.random.seed(case["seed1"])
     M = xc.make_map(ref, tgt, s)
     mpos = rpos @ R.T + t
-    if case["how"] == "fresh":
-        moved = build_molecule(case["ref"], coords=mpos)
-    else:
-        moved = lib("copy", ref.copy)
-        moved.atoms_positions = mpos
     np.random.seed(case["seed2"])
-    out0 = positions(lib("map-apply", M, ref))
-    out1 = positions(lib("map-apply-moved", M, moved))
+    if case["how"] == "inplace":
+        # the construction reference object itself is moved rigidly (in place) and mapped again
+        out0 = positions(lib("map-apply", M, ref))
+        ref.atoms_positions = mpos.copy()
+        out1 = positions(lib("map-apply-moved", M, ref))
+    else:
+        if case["how"] == "fresh":
+            moved = build_molecule(case["ref"], coords=mpos)
+        else:
+            moved = lib("copy", ref.copy)
+            moved.atoms_positions = mpos
+        if case.get("order") == "moved-first":
+            out1 = positions(lib("map-apply-moved", M, moved))
+            out0 = positions(lib("map-apply", M, ref))
+        else:
+            out0 = positions(lib("map-apply", M, ref))
+            out1 = positions(lib("map-apply-moved", M, moved))
     if not (np.all(np.isfinite(out0)) and np.all(np.isfinite(out1))):
         raise PropertyViolation("finite", "non-finite mapped coordinates (class %s)" % case["geom"])
     anchors, assign = xc.oracle_assignment(case)
     chosen = xc.check_equivalences(M, assign)
     classes = ["size:" + case["size"], "geom:" + case["geom"], "R:" + case["rkind"],
-               "how:" + case["how"]]
+               "how:" + case["how"], "order:" + case.get("order", "ref-first")]
 
     def fail(clause, msg):
         raise PropertyViolation(clause, "%s (size %s, class %s, R %s)"
